@@ -1,11 +1,15 @@
 #!/usr/bin/env python3
-"""Regenerates /verif/MANIFEST.json from tools/claims.json (one entry per claimed
-property) so that the manifest is always schema-valid and not_applicable always
+"""Regenerates /verif/MANIFEST.json from checks/<ID>.json (the "claim" object of each check) so that the manifest is always schema-valid and not_applicable always
 lists every property that is not claimed."""
 import json, os, sys
 here = os.path.dirname(os.path.abspath(__file__))
 root = os.path.dirname(here)
-claims = json.load(open(os.path.join(here, "claims.json")))
+import glob
+claims = {}
+for f in sorted(glob.glob(os.path.join(root, "checks", "*.json"))):
+    c = json.load(open(f))
+    if "claim" in c:
+        claims[os.path.basename(f)[:-5]] = c["claim"]
 props = [json.loads(l) for l in open(os.path.join(root, "properties.jsonl"))]
 checks, na = [], []
 for p in props:
